@@ -4,6 +4,7 @@ from ..facts import callee_name
 from .. import cfg as C
 from .. import vcai as V
 from . import C04
+from .common import copy_helpers, is_add_call
 
 PASSES = {
     "constants": "optimizer::constant_optimizer::optimize_graph_constants",
@@ -32,6 +33,43 @@ def order_hook(fl, bb, t, name):
     return None
 
 
+def _op_transformer_arg(facts, b, fl, call_bb):
+    """a local closure `|op| -> Result<Operation>` that returns its argument unchanged or update_prf_id(argument):
+    returns the operand (and point) of the operation handed to it at this call, else None"""
+    t = b.term(call_bb)
+    cb = facts.bodies.get(callee_name(t) or "")
+    if cb is None or cb.kind != "closure" or len(t["args"]) != 2 or t["args"][1][0] == "k":
+        return None
+    cfl = Flow(facts, cb)
+    okret = False
+    for bb, j, place, rv in cb.assigns():
+        if place == [0] and rv[0] == "agg" and rv[1].get("vn") == "Ok" and not cb.is_cleanup(bb):
+            ors = cfl.origins(rv[2][0], (bb, j))
+            if not ors or not all(o[0] == "param" and o[1] == 2 for o in ors):
+                return None
+            okret = True
+    for bb, tt in cb.calls():
+        if cb.is_cleanup(bb):
+            continue
+        # a call that defines the return value directly
+        if any(d_[0] == 0 for d_ in [cfl.defs[i] for i in cfl.defs_of.get(0, [])] if d_[1] == bb and d_[2] is None):
+            if callee_name(tt) != "graphs::Operation::update_prf_id":
+                return None
+            if not all(o[0] == "param" and o[1] == 2 for o in cfl.origins(tt["args"][0], (bb, None))):
+                return None
+            okret = True
+    if not okret:
+        return None
+    tl = t["args"][1][1][0]
+    for di in fl.defs_of.get(tl, []):
+        _, db, dj = fl.defs[di]
+        if db >= 0 and dj is not None:
+            rv = b.stmts(db)[dj][2]
+            if rv[0] == "agg" and rv[1].get("k") == "tuple" and len(rv[2]) == 1:
+                return rv[2][0], (db, dj)
+    return None
+
+
 def run(facts, rep, tier):
     rep.rule("C06.A", "every pass that re-creates a node copies its annotations and its name: each path from add_node_with_type to "
                       "ContextMappings::insert_node passes through Node::get_annotations and copy_node_name/set_name, the annotations "
@@ -52,7 +90,9 @@ def run(facts, rep, tier):
             continue
         fl = Flow(facts, b, EXTRA)
         flo = Flow(facts, b, EXTRA, call_hook=order_hook)
-        adds = [bb for bb, t in b.calls() if callee_name(t) == ADD_TYPED and not b.is_cleanup(bb)]
+        helpers = copy_helpers(facts)
+        adds = [bb for bb, t in b.calls() if is_add_call(facts, t) and not b.is_cleanup(bb)]
+        via = {bb: callee_name(b.term(bb)) for bb in adds if callee_name(b.term(bb)) in helpers}
         ins = [bb for bb, t in b.calls() if (callee_name(t) or "").endswith("ContextMappings::insert_node") and not b.is_cleanup(bb)]
         getann = [bb for bb, t in b.calls() if callee_name(t) == "graphs::Node::get_annotations" and not b.is_cleanup(bb)]
         names = [bb for bb, t in b.calls() if callee_name(t) in ("graphs::copy_node_name", "graphs::Node::set_name") and not b.is_cleanup(bb)]
@@ -62,6 +102,11 @@ def run(facts, rep, tier):
         errs = C.error_exit_blocks(b)
         for k, a in enumerate(adds):
             n_sites += 1
+            if a in via:
+                rep.ob("C06.A", "%s|annotations#%d" % (short, k), True,
+                       "the node is re-created by the copy helper %s (%s)" % (via[a].split("::")[-1], helpers[via[a]]["why"]), b.loc(a))
+                rep.ob("C06.A", "%s|name#%d" % (short, k), True, "name copied inside the copy helper %s" % via[a].split("::")[-1], b.loc(a))
+                continue
             ok = bool(getann) and C.must_pass(b, a, ins, set(getann) | errs)
             rep.ob("C06.A", "%s|annotations#%d" % (short, k), ok,
                    "every path from add_node_with_type to insert_node reads the source node's annotations" if ok else
@@ -81,11 +126,17 @@ def run(facts, rep, tier):
             recv = {o for o in fl.origins(t["args"][0], (x, None)) if o[0] == "call"}
             if any(o[0] == "call" and o[2] == "graphs::Node::get_annotations" for o in src) and (recv & mapped):
                 good = True
+        if any(o[1] in via for o in mapped):
+            good = True     # the copy helper puts the annotations on the node it returns, and that node is mapped
         rep.ob("C06.A", "%s|annotation-target" % short, good,
                "an add_annotation call puts the annotations read by get_annotations on a node that is inserted into the mapping", b.loc())
         # ---- C06.T
         for k, a in enumerate(adds):
             t = b.term(a)
+            if a in via:
+                rep.ob("C06.T", "%s|site#%d" % (short, k), True,
+                       "operation and type both come from the node handed to the copy helper %s" % via[a].split("::")[-1], b.loc(a))
+                continue
             op_or = fl.origins(t["args"][3], (a, None))
             ty_or = fl.origins(t["args"][4], (a, None))
             op_nodes, ok_op = set(), bool(op_or)
@@ -94,6 +145,13 @@ def run(facts, rep, tier):
                     op_nodes |= set(fl.origins(b.term(o[1])["args"][0], (o[1], None)))
                 elif o[0] == "call" and o[2] == "graphs::Operation::update_prf_id":
                     for o2 in fl.origins(b.term(o[1])["args"][0], (o[1], None)):
+                        if o2[0] == "call" and o2[2] == "graphs::Node::get_operation":
+                            op_nodes |= set(fl.origins(b.term(o2[1])["args"][0], (o2[1], None)))
+                        else:
+                            ok_op = False
+                elif o[0] == "call" and _op_transformer_arg(facts, b, fl, o[1]) is not None:
+                    arg, at_ = _op_transformer_arg(facts, b, fl, o[1])
+                    for o2 in fl.origins(arg, at_):
                         if o2[0] == "call" and o2[2] == "graphs::Node::get_operation":
                             op_nodes |= set(fl.origins(b.term(o2[1])["args"][0], (o2[1], None)))
                         else:
@@ -119,9 +177,16 @@ def run(facts, rep, tier):
         for k, a in enumerate(adds):
             t = b.term(a)
             src_nodes = set()
-            for o in fl.origins(t["args"][3], (a, None)):
+            if a in via:
+                src_nodes |= set(flo.origins(t["args"][helpers[via[a]]["node"] - 1], (a, None)))
+            for o in ([] if a in via else fl.origins(t["args"][3], (a, None))):
                 if o[0] == "call" and o[2] == "graphs::Node::get_operation":
                     src_nodes |= set(flo.origins(b.term(o[1])["args"][0], (o[1], None)))
+                elif o[0] == "call" and _op_transformer_arg(facts, b, fl, o[1]) is not None:
+                    arg, at_ = _op_transformer_arg(facts, b, fl, o[1])
+                    for o2 in fl.origins(arg, at_):
+                        if o2[0] == "call" and o2[2] == "graphs::Node::get_operation":
+                            src_nodes |= set(flo.origins(b.term(o2[1])["args"][0], (o2[1], None)))
             ok = bool(src_nodes) and all(o[0] == "call" and o[2] == "graphs::Graph::get_nodes" for o in src_nodes)
             rep.ob("C06.I", "%s|order#%d" % (short, k), ok,
                    "the copied node comes straight from the get_nodes() iteration (origins: %s)" % sorted(
